@@ -14,6 +14,10 @@ MINT_FILES = ["replay/mint/zz_verif_helpers_test.go", "replay/mint/zz_verif_driv
 
 # (fn regex, obligation regex, pkg, files, test name, args)
 DRIVERS = [
+    (r"mint\.Mint\)\.Swap$", r"boundary@", "mint", MINT_FILES, "TestVerifReplay_SwapCrashPoint", None),
+    (r"mint\.Mint\)\.MintTokens$", r"boundary@", "mint", MINT_FILES, "TestVerifReplay_MintCrashPoint", None),
+    (r"mint\.Mint\)\.MeltTokens$", r"boundary@", "mint", MINT_FILES, "TestVerifReplay_MeltCrashPoint", None),
+    (r"mint\.Mint\)\.RotateKeyset$", r"boundary@", "mint", MINT_FILES, "TestVerifReplay_RotateCrashPoint", None),
     (r"cashu\.DecodeToken(V3|V4)?$", r"safety:slice", "cashu", CASHU_FILES, "TestVerifReplay_DecodeShortStrings", None),
     (r"cashu\.Token(V3|V4)\)\.(Mint|Proofs|Amount|Serialize)$", r"safety:index", "cashu", CASHU_FILES, "TestVerifReplay_AccessorsOnDecodedTokens", None),
     (r"mint\.Mint\)\.Swap$", r"pre:storage\.MintDB\.GetBlindSignatures@nonempty", "mint", MINT_FILES, "TestVerifReplay_EmptyOutputsSwap", None),
